@@ -42,6 +42,55 @@ func genC14Peer(seed int64, tier string) *Plan {
 	return p
 }
 
+// genC14Sender: node A replicates to B, B has outages, and A itself is closed or crashes at seeded
+// points — between writes, while pushes are in flight, in the middle of a retry pass. A twin that was
+// never restarted delivers every commit once B is reachable; so must the restarted A (oracle and
+// engine are those of C15, the violation is reported for C14).
+func genC14Sender(seed int64, tier string) *Plan {
+	r := newRng(seed, 142)
+	p := &Plan{Prop: "C14", Engine: "E3", Seed: seed, Cfg: map[string]int{"peer": 2}}
+	p.Cfg["intervals"] = r.IntN(2)
+	p.Cfg["docs"] = 1 + r.IntN(3)
+	p.Cfg["col"] = 0
+	p.Cfg["named"] = r.IntN(2)
+	p.Cfg["sign"] = 0
+	p.Cfg["mode"] = 0
+	restart := func() Step { return Step{K: pick(r, []string{"arestart", "acrash", "acrash"})} }
+	p.Steps = append(p.Steps, Step{K: "setrep"}, Step{K: "write", A: 0, C: r.IntN(64), D: r.IntN(64)}, Step{K: "net", A: 3})
+	for d := 1; d < p.Cfg["docs"]; d++ {
+		p.Steps = append(p.Steps, Step{K: "write", A: 0, C: r.IntN(64), D: r.IntN(64)}, Step{K: "net", A: 3})
+	}
+	cycles := 1 + r.IntN(3)
+	for c := 0; c < cycles; c++ {
+		p.Steps = append(p.Steps, Step{K: "down"})
+		for w := 0; w < 1+r.IntN(3); w++ {
+			p.Steps = append(p.Steps, Step{K: "write", A: 1, B: r.IntN(3), C: r.IntN(64), D: r.IntN(64)})
+		}
+		if chance(r, 30) {
+			p.Steps = append(p.Steps, restart()) // with retry records on disk, before any retry
+		}
+		if chance(r, 40) {
+			p.Steps = append(p.Steps, Step{K: "tick", A: 3}) // a failed retry pass during the outage
+		}
+		if chance(r, 25) {
+			p.Steps = append(p.Steps, restart())
+		}
+		p.Steps = append(p.Steps, Step{K: "up"}, Step{K: "tick", A: 3}) // the retry pass starts; its pushes are pending
+		if chance(r, 60) {
+			p.Steps = append(p.Steps, restart()) // in the middle of the retry pass
+		}
+		if chance(r, 50) {
+			p.Steps = append(p.Steps, Step{K: "write", A: 1, B: r.IntN(3), C: r.IntN(64), D: r.IntN(64)})
+		}
+		p.Steps = append(p.Steps, Step{K: "net", A: pick(r, []int{3, 3, 4, 0})}, Step{K: "tick", A: r.IntN(6)}, Step{K: "net", A: 3})
+		if chance(r, 25) {
+			p.Steps = append(p.Steps, restart())
+		}
+	}
+	p.Steps = append(p.Steps, Step{K: "settle"})
+	return p
+}
+
 func (n *simNet) takePushes() [][2]string {
 	n.mu.Lock()
 	defer n.mu.Unlock()
